@@ -25,8 +25,12 @@ func emitInjectCode(repo string) (string, error) {
 			"(reflect.Type).Implements": "Lib.Ty_Implements U",
 			"reflect.TypeOf":            "tyOf",
 			"reflect.ValueOf":           "Lib.reflect_ValueOf",
+			"(reflect.Type).In":         "sigIn",
+			"(reflect.Value).Call":      "callF",
+			"fmt.Errorf":                "Lib.fmt_Errorf@0",
 		},
-		prelude: "variable (U : Flamego.Inject.Universe)\n-- `reflect.TypeOf` of a value the caller passes: which type of the universe it has\nvariable (tyOf : Any → Lib.Ty)\n",
+		ownArgs: " U",
+		prelude: "variable (U : Flamego.Inject.Universe)\n-- `reflect.TypeOf` of a value the caller passes: which type of the universe it has\nvariable (tyOf : Any → Lib.Ty)\n-- `t.In(i)`: the type of the i-th parameter of a function type; `reflect.Value.Call`: what the function returns for the arguments\nvariable (sigIn : Lib.Ty → Int → Lib.Ty) (callF : Lib.RVal → List Lib.RVal → List Lib.RVal)\n",
 		skip:    map[string]string{},
 	})
 }
